@@ -1214,6 +1214,10 @@ func (db *DB) allocate(txid common.Txid, count int) (*common.Page, error) {
 		if err != nil {
 			return nil, fmt.Errorf("mmap size calculation error: %w", err)
 		}
+		if minsz < db.datasz {
+			// No remap is needed, so grow() will use the current mmap size.
+			nextMmapSize = db.datasz
+		}
 		if runtime.GOOS == "windows" {
 			// nextAllocSize may not exactly match nextMmapSize.
 			// On Windows, this mismatch may cause the file size to slightly exceed maxSize,
